@@ -178,5 +178,17 @@ PROPS['C08'] = dict(
     trusted=['T10 numpy / random: randint in [a,b), choice(replace=False) returns distinct elements of its argument, choice never returns a value of probability 0, shuffle permutes, np.sum / array division as documented',
              'T8 file I/O', 'T9 argparse', 'int(a / b) == a // b for a + b < 2**53 (DESIGN 3.1)'],
     assumptions=['create_instance / generate_instances text assembly: bounded stand-in only'])
+GETTER_HELPERS = ['_get_max_rank', '_get_cost', '_get_cost_sq', '_get_degree', '_get_profile', '_get_lec_abs_diffs', '_get_max_lec_abs_diff', '_get_sum_lec_abs_diff',
+                  '_get_matching_string', '_get_matching_size', '_get_pair_assignments', '_get_pair_assignments_with_none', 'get_results', 'get_debug', '_pairs_string',
+                  'check_stability', 'get_num_assignments_projects', 'get_num_assignments_lecturers', 'get_worst_rank_projects', 'get_worst_rank_lecturers']
+PROPS['C18'] = dict(
+    title='Result getters are read-only and re-solving is reproducible',
+    functions=[(MOD + f, {'force_pure': True}) for f in GETTER_HELPERS] + [(BF + 'get_results', {'force_pure': True})],
+    lemmas=[], level='other',
+    level_text='frame obligations for Model.get_results (short and long), Model.get_debug, Brute_force_solver.get_results and every helper they call: at every return, every field of every object, every Pair attribute array and the ghost LP state (constraints, reported values, status, solve history) equal their values at entry, and no helper calls a nondeterministic external, so any interleaving of getters returns equal text; get_debug does not raise after a solve in either mode.  NOT proved deductively (bounded stand-in): the thin Solver-level getters, Solver.solve building a fresh problem and fresh variables (LP_Solver.__init__ / Model.pulp_setup), and reproducibility of the status and criterion values of a second solve (follows from C02-C04 given a fresh problem); decided for timeLimit=None only',
+    harness=True, bound='<= 4 students x <= 3 projects x <= 3 lecturers, LP (0-2 criteria, -pc, -stab) and brute force, call sequences of length <= 7',
+    budget={'quick': 25, 'thorough': 300},
+    trusted=T_LP + ['T12 strftime is a pure function of the stored start time'],
+    assumptions=['with a time limit the status line depends on the wall clock, which no contract models', 'Solver.solve re-initialisation: bounded stand-in only'])
 NOT_APPLICABLE = {}
 NOTES = 'see DESIGN.md; ./check Cxx --tier quick|thorough; exit 0 held / 1 VIOLATION / 2 undecided / 3 checker error'
